@@ -23,21 +23,33 @@ let out_str = function
   | C03Num z -> string_of_int (int_of_z z)
   | C03ModeOut r -> if r then "RESIZE" else "GROUND"
   | C03List l -> "[" ^ String.concat "" (List.map pair_str l) ^ "]"
+  | C03Bits b -> "b" ^ String.concat "" (List.map (fun x -> if x then "1" else "0") b)
   | C03Null -> "NULL" | C03Precond -> "PRECOND" | C03Overflow -> "OVERFLOW" | C03OutOfFuel -> "OUTOFFUEL"
 
+(* one token of the case line -> the model ops it stands for (their outputs are joined by '/') *)
 let parse_op s =
   let t = Array.of_list (String.split_on_char ':' s) in
   let i k = int_of_string t.(k) in
   match t.(0) with
-  | "B" -> C03Begin
-  | "A" -> C03Add (z_of_int (i 1), n_of_int (i 2), n_of_int (i 3), i 4 <> 0)
-  | "D" -> C03MarkDeleted (nat_of_int (i 1))
-  | "E" -> C03End | "R" -> C03Renumber
-  | "X" -> C03Exists (z_of_int (i 1)) | "T" -> C03At (z_of_int (i 1)) | "G" -> C03Get (z_of_int (i 1))
-  | "S" -> C03Size | "Q" -> C03SeqNo | "M" -> C03Mode | "I" -> C03Iterate
-  | "V" -> C03Reverse (n_of_int (i 1))
-  | "W" -> C03ReverseSized (n_of_int (i 1), n_of_int (i 2))
+  | "B" -> [C03Begin]
+  | "A" -> [C03Add (z_of_int (i 1), n_of_int (i 2), n_of_int (i 3), i 4 <> 0)]
+  | "a" -> [C03Add (z_of_int (i 1), N0, N0, false)]           (* add(global): default-constructed local index *)
+  | "D" -> [C03MarkDeleted (nat_of_int (i 1))]
+  | "E" -> [C03End] | "R" -> [C03Renumber]
+  | "X" -> [C03Exists (z_of_int (i 1))] | "T" -> [C03At (z_of_int (i 1))] | "G" -> [C03Get (z_of_int (i 1))]
+  | "Y" -> [C03Get (z_of_int (i 1))]                          (* GlobalLookupIndexSet::operator[] forwards to the set *)
+  | "S" -> [C03Size] | "Q" -> [C03SeqNo] | "M" -> [C03Mode] | "I" -> [C03Iterate]
+  | "J" -> [C03Iterate]                                       (* GlobalLookupIndexSet::begin()/end() *)
+  | "C" -> [C03Iterate; C03Size; C03SeqNo; C03Mode]           (* a copy read back immediately *)
+  | "V" -> [C03Reverse (n_of_int (i 1))]
+  | "W" -> [C03ReverseSized (n_of_int (i 1), n_of_int (i 2))]
+  | "U" -> [C03SetLocal (z_of_int (i 1), n_of_int (i 2))]
+  | "Z" -> [C03SetEq (n_of_int (i 1))]
+  | "K" -> [C03Cmp (nat_of_int (i 1), nat_of_int (i 2), z_of_int (i 3))]
   | _ -> failwith ("bad op " ^ s)
+
+let rec take n l = if n = 0 then [] else match l with [] -> [] | x :: r -> x :: take (n - 1) r
+let rec drop n l = if n = 0 then l else match l with [] -> [] | _ :: r -> drop (n - 1) r
 
 let () =
   let ic = open_in Sys.argv.(1) in
@@ -48,8 +60,13 @@ let () =
       match t with
       | _ :: chk :: ops ->
           let chk = chk <> "0" in
-          let ops = List.map parse_op ops in
-          let show os = String.concat ";" (List.map out_str os) in
+          let groups = List.map parse_op ops in
+          let ops = List.concat groups in
+          let show os =
+            let rec go gs os = match gs with
+              | [] -> []
+              | g :: r -> let k = List.length g in String.concat "/" (List.map out_str (take k os)) :: go r (drop k os) in
+            String.concat ";" (go groups os) in
           let (_, m) = c03_run chk false c03_init ops in
           let (_, ml) = c03_run chk true c03_init ops in
           let (_, sp) = c03_spec_run c03s_init ops in
